@@ -27,6 +27,16 @@ pub struct Case {
     pub focus: Option<(usize, u8)>,
     /// sample at most this many prefix lengths (None = all)
     pub max_prefixes: Option<usize>,
+    /// match-length code of the end marker (2 = conventional)
+    #[serde(default = "two")]
+    pub marker_len: u32,
+    /// the sink accepts at most this many bytes per write call (0 = everything)
+    #[serde(default)]
+    pub sink_max: usize,
+}
+
+fn two() -> u32 {
+    2
 }
 
 pub struct C15;
@@ -79,6 +89,8 @@ impl Property for C15 {
             pattern: a.5.clone(),
             focus: None,
             max_prefixes: Some(700),
+            marker_len: if a.5.len() % 3 == 0 { 2 + (a.5[0] as u32 % 272) } else { 2 },
+            sink_max: if a.5.len() % 2 == 0 { 1 + a.5[0] % 9 } else { 0 },
         }
     }
     fn fixed_cases(&self, _tier: Tier) -> Vec<Case> {
@@ -92,6 +104,9 @@ impl Property for C15 {
             pattern: vec![1, 5, 19],
             focus: None,
             max_prefixes: Some(300),
+            // the marker is the expensive symbol only when it is coded with length 273
+            marker_len: 273,
+            sink_max: 0,
         }]
     }
     fn rule(&self) -> String {
@@ -107,6 +122,7 @@ impl Property for C15 {
             ("header:5", 200 * k),
             ("term:size", 300 * k),
             ("term:marker", 300 * k),
+            ("short-writing sink", 50_000 * k),
         ]
     }
 
@@ -116,9 +132,9 @@ impl Property for C15 {
             Err(e) => return Judgement::HarnessBug(format!("{:?}", e)),
         };
         let (marker, size) = match c.term % 3 {
-            0 => (Some(2), None),
+            0 => (Some(c.marker_len.clamp(2, 273)), None),
             1 => (None, Some(full.len() as u64)),
-            _ => (Some(2), Some(full.len() as u64)),
+            _ => (Some(c.marker_len.clamp(2, 273)), Some(full.len() as u64)),
         };
         let enc = encode_lzma(c.props, &c.ops, marker);
         let mut file = if c.h13 {
@@ -200,7 +216,14 @@ impl Property for C15 {
                     }
                 };
                 st.eval();
-                let r = sut::stream_run(input, &opts, &script, &SinkCfg::default(), false);
+                let sink_cfg = SinkCfg {
+                    max_per_write: if c.sink_max > 0 { vec![c.sink_max, 4096] } else { vec![] },
+                    ..Default::default()
+                };
+                if c.sink_max > 0 {
+                    st.class("short-writing sink");
+                }
+                let r = sut::stream_run(input, &opts, &script, &sink_cfg, false);
                 if p < hl + 5 {
                     st.class("prefix:inside header/preamble");
                 } else if cuts_symbol {
